@@ -668,6 +668,15 @@ class Interp:
                     cols.append(l[:n] if l is not None else
                                 [self.getitem_term(a, num(i)) for i in range(n)])
                 return [('tuple', tuple(xs)) for xs in zip(*cols)]
+        if it[0] == 'call' and it[1] == 'itertools.product' and it[2] and not it[3]:
+            lists = [self.iter_items(a) for a in it[2]]
+            if all(l is not None for l in lists):
+                import itertools as _it
+                n = 1
+                for l in lists:
+                    n *= len(l)
+                if n <= MAX_UNROLL:
+                    return [('tuple', tuple(xs)) for xs in _it.product(*lists)]
         if it[0] == 'call' and it[1] == 'reversed' and len(it[2]) == 1:
             items = self.iter_items(it[2][0])
             if items is not None:
